@@ -18,6 +18,7 @@ package main
 //	        | missing | allmissing | hasmissing | pause <n> | sleep <microseconds>
 //	        | cins <k> <path> <hex> | cdel <k> <path> | cget <k> <path> | citer <k> | croot <k>   the operation on child trie k
 //	        | cmerge <k>    MergeMPTChanges(child k) into the shared trie while other goroutines keep updating child k
+//	        | validate      Validate(): must return nil (the trie is sane at every linearization point)
 //	        | deletes       GetDeletes: number of nodes, and how many of them are MergeDB's dead nodes
 //	        | mergedb       MergeDB(donor store, donor root, two dead nodes): the trie becomes the donor trie
 //	        | mergechild <path> <hex>   child trie opened at the current root inserts the key, MergeMPTChanges(child)
@@ -51,7 +52,7 @@ func init() {
 	childModes["c16child"] = c16Child
 	register(&Suite{
 		Name: "c16",
-		Rule: "2-6 goroutines run scripts (ins/del/get/iter/root/GetChanges/GetChangeCount/GetDeletes/SaveChanges/missing-node reads, random Gosched/sleeps) over one shared trie on mem/level/pndb stores; scenarios: lookups into nodes removed from the store, disjoint key sets, overlapping key sets, readers vs writer vs saver, several tries over one store (child tries on their own LevelNodeDB layered over the shared trie's store, one goroutine each, plus readers of the shared trie: every child must behave as a map of its own), a child trie that is updated by one goroutine while another merges it into the shared trie (a merge that returns ok must install the child's content of ONE instant inside the call and leave every node resolvable; stale must change nothing), merges (MergeDB from a donor store with dead nodes and MergeMPTChanges from a child trie vs back-to-back GetDeletes/GetChanges; GetDeletes must list the dead nodes of exactly the merges before it), snapshot stress (writers vs back-to-back GetChanges, each returned (root, changes, deletes, startRoot) replayed over the setup store and required to be one complete state); child process under the race detector (exit 66 = DATA RACE); porcupine against the map specification; final root/content and saved change sets checked; non-trivial = >= 2 goroutines and (a successful concurrent update or >= 2 absent-node hits)",
+		Rule: "2-6 goroutines run scripts (ins/del/get/iter/root/GetChanges/GetChangeCount/GetDeletes/SaveChanges/missing-node reads, random Gosched/sleeps) over one shared trie on mem/level/pndb stores; scenarios: lookups into nodes removed from the store, disjoint key sets, overlapping key sets, readers vs writer vs saver, several tries over one store (child tries on their own LevelNodeDB layered over the shared trie's store, one goroutine each, plus readers of the shared trie: every child must behave as a map of its own), a child trie that is updated by one goroutine while another merges it into the shared trie (a merge that returns ok must install the child's content of ONE instant inside the call and leave every node resolvable; stale must change nothing), value flips (writers put v1, v2, v1, ... on a few keys so that replaced nodes come back, vs back-to-back Validate, which must return nil; memory and level stores), merges (MergeDB from a donor store with dead nodes and MergeMPTChanges from a child trie vs back-to-back GetDeletes/GetChanges; GetDeletes must list the dead nodes of exactly the merges before it), snapshot stress (writers vs back-to-back GetChanges, each returned (root, changes, deletes, startRoot) replayed over the setup store and required to be one complete state); child process under the race detector (exit 66 = DATA RACE); porcupine against the map specification; final root/content and saved change sets checked; non-trivial = >= 2 goroutines and (a successful concurrent update or >= 2 absent-node hits)",
 		Gen:  genC16,
 		Run:  runC16,
 		DefaultN: func(tier string) int {
@@ -436,6 +437,15 @@ func c16Exec(mpt *util.MerklePatriciaTrie, db2 util.NodeDB, f []string, post *fu
 				}
 			}
 			return fmt.Sprintf("ok %s n=%d d=%d h=%d", rootStr(root), len(changes), len(deletes), h/64)
+		case "validate":
+			if err := mpt.Validate(); err != nil {
+				msg := err.Error()
+				if len(msg) > 60 {
+					msg = msg[:60]
+				}
+				return "invalid(" + strings.ReplaceAll(msg, " ", "_") + ")"
+			}
+			return "ok"
 		case "setver":
 			mpt.SetVersion(mpt.GetVersion())
 			return "ok"
@@ -1099,6 +1109,14 @@ func runC16(ops []string) (res CaseResult) {
 			if out == "ok" {
 				updatesOK++
 			}
+		case "validate":
+			// the trie is sane at every linearization point (every update is one critical section), so Validate,
+			// which checks it under the read lock, must return nil - also while old values are written back
+			if out != "ok" {
+				tags["validate-false-alarm"] = true
+				fail("op %d (%s): Validate returned %s on a trie that is sane at every instant (it must judge ONE state: change set and store read under one lock)", i, op, out)
+			}
+			continue
 		case "save", "savec", "count", "missing", "setver", "dbversion":
 			if strings.HasPrefix(out, "err") {
 				fail("op %d (%s): returned %s", i, op, out)
@@ -1268,7 +1286,8 @@ func genC16(r *rand.Rand, tier string, idx int) []string {
 	// 0 absent nodes, 1 disjoint keys, 2 overlapping keys, 3 readers vs writer vs saver, 4 snapshot stress, 5 merges,
 	// 6 child tries over the shared store, 7 a child trie written while it is merged
 	sel := idx % 12
-	scenario := []int{0, 1, 2, 3, 0, 5, 2, 4, 0, 6, 3, 7}[sel]
+	// 8 value flips vs Validate
+	scenario := []int{0, 1, 2, 3, 0, 5, 2, 4, 8, 6, 3, 7}[sel]
 	maxThreads, maxOps := 4, 7
 	if tier == "thorough" {
 		maxThreads, maxOps = 6, 14
@@ -1300,6 +1319,17 @@ func genC16(r *rand.Rand, tier string, idx int) []string {
 			maxOps = 30
 		}
 	}
+	if scenario == 8 {
+		// value flips: writers put v1, v2, v1, ... on a few keys, so that nodes replaced earlier in the round come
+		// back into the store, while validators call Validate back to back (memory and level stores: Validate checks
+		// nothing on a persistent store)
+		ops[0] = fmt.Sprintf("new %s %d", []string{"mem", "level"}[(idx/12)%2], ver)
+		nThreads = 4 + r.Intn(2)
+		maxOps = 40
+		if tier == "thorough" {
+			maxOps = 70
+		}
+	}
 	if scenario == 7 {
 		// a child trie that is itself used concurrently: goroutine 0 (and sometimes 3) keeps updating child 0 while
 		// goroutine 1 merges it into the shared trie (MergeMPTChanges) and goroutine 2 reads the shared trie
@@ -1315,18 +1345,24 @@ func genC16(r *rand.Rand, tier string, idx int) []string {
 		nPre = r.Intn(4)
 	}
 	seen := map[string]bool{}
+	preVal := map[string]string{}
+	if scenario == 8 {
+		nPre = 8 + r.Intn(8) // a bigger trie: more replaced nodes for Validate to look up
+	}
 	for k := 0; k < nPre; k++ {
 		p := genPath(r, alpha, pool)
 		if scenario == 1 {
 			p = "ff" + p // setup keys outside every thread's own prefix
 		}
-		ops = append(ops, "pre ins "+ptok(p)+" "+genValue(r))
+		pv := genValue(r)
+		ops = append(ops, "pre ins "+ptok(p)+" "+pv)
+		preVal[p] = pv
 		if !seen[p] {
 			seen[p] = true
 			pool = append(pool, p)
 		}
 	}
-	if scenario != 1 && r.Intn(4) == 0 && len(pool) > 0 {
+	if scenario != 1 && scenario != 8 && r.Intn(4) == 0 && len(pool) > 0 {
 		ops = append(ops, "pre del "+ptok(pool[r.Intn(len(pool))]))
 	}
 	if scenario == 5 {
@@ -1345,10 +1381,14 @@ func genC16(r *rand.Rand, tier string, idx int) []string {
 			ops = append(ops, fmt.Sprintf("rm %d", r.Intn(64)))
 		}
 		ops = append(ops, "fresh")
-	} else if r.Intn(2) == 0 {
+	} else if scenario == 8 || r.Intn(2) == 0 {
+		// (value flips: always a fresh collector, so that the nodes of the setup are the `Old` side of the changes)
 		ops = append(ops, "fresh")
 	}
 	pause := func(tid int) {
+		if scenario == 8 {
+			return // back to back
+		}
 		switch r.Intn(6) {
 		case 0:
 			ops = append(ops, fmt.Sprintf("t %d pause %d", tid, 1+r.Intn(4)))
@@ -1358,6 +1398,8 @@ func genC16(r *rand.Rand, tier string, idx int) []string {
 	}
 	// thread scripts are generated per thread and then interleaved in the file (the file order is irrelevant
 	// across threads; within a thread it is the program order)
+	var flipKeys []string
+	flipCount := map[int]int{}
 	scripts := make([][]string, nThreads)
 	for tid := 0; tid < nThreads; tid++ {
 		n := 2 + r.Intn(maxOps-1)
@@ -1391,6 +1433,10 @@ func genC16(r *rand.Rand, tier string, idx int) []string {
 			role = []string{"merger", "delreader", "writer", "delreader", "merger"}[tid%5]
 			n = maxOps/2 + r.Intn(maxOps/2)
 		}
+		if scenario == 8 {
+			role = []string{"flipper", "validator", "validator", "flipper", "validator"}[tid%5]
+			n = maxOps/2 + r.Intn(maxOps/2)
+		}
 		if scenario == 7 {
 			role = []string{"child0user", "childmerger", "reader", "child0user"}[tid%4]
 			n = maxOps/2 + r.Intn(maxOps/2)
@@ -1409,6 +1455,31 @@ func genC16(r *rand.Rand, tier string, idx int) []string {
 			x := r.Intn(100)
 			var line string
 			switch role {
+			case "flipper":
+				// few keys, two values per key, alternating
+				if len(flipKeys) == 0 {
+					for j := 0; j < 2+r.Intn(3); j++ {
+						flipKeys = append(flipKeys, pool[r.Intn(len(pool))]) // keys of the setup
+					}
+				}
+				fk := r.Intn(len(flipKeys))
+				flipCount[fk]++
+				// alternate between another value and the value the key had in the setup: the second write brings the
+				// setup's nodes (the `Old` side of the recorded changes) back into the store
+				orig := preVal[flipKeys[fk]]
+				other := "4242"
+				if orig == other {
+					other = "4343"
+				}
+				line = fmt.Sprintf("ins %s %s", ptok(flipKeys[fk]), []string{orig, other}[flipCount[fk]%2])
+			case "validator":
+				if x < 80 {
+					line = "validate"
+				} else if x < 90 {
+					line = "changes"
+				} else {
+					line = "root"
+				}
 			case "child0user":
 				switch {
 				case x < 55:
@@ -1483,8 +1554,10 @@ func genC16(r *rand.Rand, tier string, idx int) []string {
 					line = "allmissing"
 				case x < 90:
 					line = "hasmissing"
-				case x < 95:
+				case x < 93:
 					line = "root"
+				case x < 96:
+					line = "validate"
 				default:
 					line = "count"
 				}
